@@ -7,7 +7,7 @@ import FV.Model.Sat
                                        | cmp OP T T | ineq OPSTR T T`
         reply: `S v | N i z | N f n d | L v s | T c v s | E c n (c v s)* | I op rhs n (c v s)* | err:<Class>`
   C07:  `P isclause OPSTR <expr> <expr>`   expr ::= `c n (c name s)*`  (built as `Expr() + t1 + … + tn + c`)
-        `P hist <nmgr> <nops> <op>*`   one posting history over `nmgr` managers sharing one store (see `pHOp`)
+        `P hist <nmgr> <nops> <op>*`   one posting history (`sv` carries the solver's model as `name 0/1` pairs)
 -/
 namespace FV.Drv
 open FV FV.PB FV.Sat
@@ -108,7 +108,7 @@ inductive HOp where
   | qu (m : Nat) (l : List Lit)
   | he (m : Nat) (k : Int) (l : List Lit)
   | pb (m : Nat) (dec : Bool) (o : String) (a b : Expr Var)
-  | sv (m : Nat) (ans : Option (List Int))
+  | sv (m : Nat) (ans : Option (List (Var × Bool)))   -- the solver's model by variable name
   | val (m : Nat) (l : Lit)
   | ev (m : Nat) (e : Expr Var)
 
@@ -126,7 +126,7 @@ def pHOp : P HOp := do
       let k ← tok
       match k with
       | "U" => pure (.sv m none)
-      | "M" => do let l ← pList pInt; pure (.sv m (some l))
+      | "M" => do let l ← pList (do let v ← pVar; let b ← pBool; pure (v, b)); pure (.sv m (some l))
       | _ => failure
   | "val" => do let l ← pLit; pure (.val m l)
   | "ev" => do let e ← pExprV; pure (.ev m e)
@@ -158,7 +158,9 @@ def stepH (w : World) (op : HOp) : Option (String × World) :=
         | .ok (m', S') => ("ok", { mgrs := w.mgrs.set i m', store := S' })
         | .error e => (showSErr e, w)
   | .sv i ans => (w.mgrs[i]?).map fun m =>
-      match m.solve ans with
+      -- the integers `get_model()` returned, in the numbering of this manager's variable table
+      let ints := ans.map fun l => l.filterMap fun (v, b) => (m.index v).map fun k => if b then (k : Int) else -(k : Int)
+      match m.solve ints with
       | .ok (b, m') => (if b then "sat" else "unsat", upd i m')
       | .error e => (showSErr e, w)
   | .val i l => (w.mgrs[i]?).map fun m => ("v:" ++ showOptInt (m.value l), w)
